@@ -152,6 +152,12 @@ example : Gen.gf_stoch_fit true true false "exposed" [(1/3 : ℚ), 1/2] [fun i =
 -- unconditional plan, p = 1: every row drawn in each of two resamples = fit('all')
 example : Gen.gf_stoch_fit false true true "population" [] [] exRows exQ [[[3, 1, 0, 5, 2, 4]], [[0, 1, 2, 3, 4, 5]]]
     = gformula exRows exQ (gfTarget .pop true) true := by decide +kernel
+-- hypotheses of `gf_p_one_zero_generated` (every row is in a pool) and of `mc_average_mixture_generated` (every stratum has
+-- target weight) on `exRows`
+example : ∀ d ∈ [[(([0, 1, 2, 3, 4, 5] : List Nat), ([3, 1, 0, 5, 2, 4] : List Nat))]], ∀ r ∈ exRows, ∃ x ∈ d, r.i ∈ x.1 := by
+  decide
+example : ∀ s ∈ [0, 1], Ntgt (gfTarget Tgt.pop true) exRows s ≠ 0 ∧ Ntgt (gfTarget Tgt.exposed false) exRows s ≠ 0 := by
+  decide +kernel
 example : DrawOK (fun q : ℚ => ⌊q⌋.toNat) 1 [0, 1, 2, 3, 4, 5] [3, 1, 0, 5, 2, 4] := by
   refine ⟨by decide, by decide, by simp [planSize]⟩
 example : Gen.gf_stoch_size_cond (fun q : ℚ => ⌊q⌋.toNat) (1/3) 5 = 1 := by
